@@ -211,6 +211,9 @@ def sorted_provenance(e, fn, depth=0):
             if len(kinds) == 3 and kinds[0][0] == 'const' and kinds[2][0] == 'const' and kinds[1][0] == 'range' \
                     and kinds[1][1] == kinds[0][1] and kinds[1][2] == kinds[2][1]:
                 return True, 'repeat(a) ++ increasing points of [a,b] ++ repeat(b)'
+            if len(parts) >= 2 and _is_knot_array(parts[0]) and not (isinstance(parts[1], ast.Call) and call_name(parts[1]) == 'np.repeat'):
+                return False, ('values appended after the complete existing knot vector are only in order if they all lie at or beyond its last '
+                               'knot; inserted knots lie inside the domain, so the array must be sorted before it reaches KnotVector')
             return None, 'concatenation pattern not recognised'
     if isinstance(e, ast.Subscript) and isinstance(e.slice, ast.Slice) and _is_knot_array(e.value):
         st = e.slice.step
